@@ -436,6 +436,7 @@ def conn (st : St) : List String → St × String
   | ["unblock"] => connDo st .unblock
   | ["killq"] => connDo st (.kill .query)
   | ["killc"] => connDo st (.kill .conn)
+  | ["deliver"] => connDo st .deliver
   | ["eof"] => connDo st .eof
   | ["lose"] => connDo st .lose
   | _ => (st, "bad-op")
